@@ -496,6 +496,53 @@ def check_lex_updates(rep, prog):
             rep.violation('R12c', deleg[0], fn, whatd, '`%s` fills the caller\'s maps with another search%s: ties between equally long paths are then broken by discovery '
                           'order instead of (edge count, vertex set), so the paths u->v and v->u of two trees need not be the reverse of each other and the isometric '
                           'filter discards circuits the basis needs' % (deleg[0].text(40), (' (when `%s`)' % conds[-1]) if conds else ''), key='R12c|%s|delegated' % fn.g)
+        # the main loop runs until the queue is empty; an exit driven by a count of settled vertices is right only if it fires after the LAST vertex
+        # has been popped (its out-edges then lead to settled vertices only).  The counter is traced (initial value, one increment per pop) and
+        # the bound evaluated over small vertex counts.
+        whatl = 'the main loop of lex_dijkstra is left only when every reachable vertex has been settled and relaxed'
+        mains = [w_ for w_ in fn.body.walk() if w_.k == 'WhileStmt' and w_.enclosing('WhileStmt', 'ForStmt') is None and w_.cond is not None and
+                 any(x.k == 'CXXMemberCallExpr' and x.callee and x.callee['name'] == 'empty' for x in w_.cond.walk())]
+        for mainl in mains[:1]:
+            exits = [x for x in mainl.body.walk() if (x.k == 'BreakStmt' and x.enclosing('WhileStmt', 'ForStmt', 'CXXForRangeStmt', 'DoStmt', 'SwitchStmt') is mainl) or x.k == 'ReturnStmt']
+            for x in exits:
+                conds = ex.ast_conditions(x)
+                conds = [(c_, p_) for (c_, p_) in conds if mainl.body.is_ancestor_of(c_)]
+                verdict = None
+                if conds:
+                    c_, pol = conds[-1]
+                    s_ = c_.strip_all()
+                    if s_.k == 'BinaryOperator' and s_.op in ('==', '>=') and pol and len(s_.c) == 2:
+                        lhs, rhs = s_.c[0].strip_all(), s_.c[1]
+                        pre = lhs.k == 'UnaryOperator' and lhs.op == '++' and lhs.j.get('prefix', True)
+                        cnt = ex.var_of(lhs.c[0]) if lhs.k == 'UnaryOperator' and lhs.op == '++' else ex.var_of(lhs)
+                        if cnt is not None:
+                            ini = [r_ for (d_, r_) in ex.assignments_to(fn, cnt) if d_.k == 'VarDecl' and r_ is not None]
+                            incs = [d_ for (d_, r_) in ex.assignments_to(fn, cnt) if d_.k != 'VarDecl']
+                            c0 = ini[0].strip_all().cv if ini else None
+                            per_pop = all(i_.k == 'UnaryOperator' and i_.op == '++' and i_.enclosing('WhileStmt', 'ForStmt', 'CXXForRangeStmt') is mainl for i_ in incs) and len(incs) == 1
+                            if c0 is not None and per_pop:
+                                defs_ = {d_.decl_id: d_.c[0] for d_ in fn.walk() if d_.k == 'VarDecl' and d_.c and len(ex.assignments_to(fn, d_.decl_id)) == 1}
+                                bad_n = None
+                                for n_ in range(1, 7):
+                                    try:
+                                        X = ex.ceval(rhs, lambda y_, n_=n_: n_ if (y_.k == 'CallExpr' and y_.callee and y_.callee['name'] == 'num_vertices') else None, defs_)
+                                    except ex.Unknown:
+                                        bad_n = 'unknown'
+                                        break
+                                    pops = X - c0            # number of pops after which the exit fires (the counter is incremented once per pop)
+                                    if pops < n_ and n_ >= 2 and bad_n is None:
+                                        bad_n = (n_, pops)
+                                verdict = ('undecided', None) if bad_n == 'unknown' else (('bad', bad_n) if bad_n else ('ok', None))
+                if verdict is None:
+                    rep.undecided('R12c', x, fn, whatl, '`%s` leaves the main loop under a condition outside the idiom table' % x.text(30))
+                elif verdict[0] == 'bad':
+                    rep.violation('R12c', x, fn, whatl, 'the loop is left after %d of %d vertices have been popped (the counter starts at %s and is incremented for every pop, the source '
+                                  'included): the out-edges of the vertex popped last-but-one are never relaxed, so the last vertex keeps a too long label or none' % (
+                                      verdict[1][1], verdict[1][0], c0), key='R12c|%s|early-exit' % fn.g)
+                elif verdict[0] == 'ok':
+                    rep.ok('R12c', x, fn, whatl, 'the exit fires after the last vertex has been popped')
+                else:
+                    rep.undecided('R12c', x, fn, whatl, 'bound of the exit not evaluable')
         # source initialisation
         whats = 'the source starts with the zero label and no predecessor'
         init = [c for c in puts if c.enclosing('ForStmt', 'CXXForRangeStmt') is None and c.enclosing('WhileStmt') is None and ex.var_of(c.args()[1]) == src]
@@ -538,6 +585,22 @@ def check_combine(rep, prog):
         if len(fn.param_ids) < 2:
             continue
         a, e = fn.param_ids[0], fn.param_ids[1]
+        # the label handed in is the label of the popped vertex and is reused for every out-edge of it: it must come back unchanged.  An
+        # insert / erase pair on its vertex set restores it only if the insert really inserted (erasing the position of an element that was
+        # already there removes a vertex of the path)
+        muts = [x for x in fn.walk() if x.k == 'CXXMemberCallExpr' and x.callee and x.callee['name'] in ('insert', 'erase', 'emplace', 'clear', 'push_back', 'emplace_back', 'swap')
+                and x.object_arg() is not None and ex.refs_var(x.object_arg(), a)]
+        if muts:
+            erases = [x for x in muts if x.callee['name'] == 'erase']
+            guarded = [x for x in erases if any('second' in c_.text(60) for (c_, _p) in ex.ast_conditions(x))]
+            if erases and not guarded:
+                rep.violation('R12d', muts[0], fn, 'the label passed to the combine functor is left unchanged', '`%s` extends the caller\'s label in place and `%s` takes the position back out without '
+                              'testing whether the insert inserted anything: when the far endpoint was already on the path (the edge back to the predecessor) that vertex is '
+                              'removed from the label, and every later out-edge of the same vertex is combined with a label that lacks it' % (
+                                  muts[0].text(40), erases[0].text(30)), key='R12d|%s|mutates-argument' % fn.g)
+            else:
+                rep.undecided('R12d', muts[0], fn, 'the label passed to the combine functor is left unchanged', '`%s` modifies the argument label' % muts[0].text(40))
+            continue
         rets = ex.returns_of(fn)
         ctor = None
         for r in rets:
